@@ -192,6 +192,9 @@ def _get_aliases(result_types: dict, package_name: str) -> dict[str, set[str]]:
                     fullname = key.fullname
                 elif isinstance(key, mypy_nodes.NameExpr) and isinstance(key.node, mypy_nodes.Var):
                     fullname = key.node.fullname
+                elif isinstance(type_value, mypy_types.CallableType | mypy_types.Overloaded):
+                    # Functions of the package which are referenced through their module are no types
+                    continue
                 else:  # pragma: no cover
                     raise TypeError("Received unexpected type while searching for aliases.")
 
